@@ -340,24 +340,38 @@ type lrBehaviour struct {
 }
 
 type lrInput struct {
+	Name       string         `json:"name"`
 	Mode       string         `json:"mode"`
 	Lazy       bool           `json:"lazy"`
 	Caps       map[string]int `json:"caps"`
 	Behaviours []lrBehaviour  `json:"behaviours"`
 }
 
+type lrInputs struct {
+	Runs []lrInput `json:"runs"`
+}
+
 func TestLedgerReplay(t *testing.T) {
-	var in lrInput
-	vh.Input(t, &in)
+	var all lrInputs
+	vh.Input(t, &all)
 	res := vh.NewResult()
 	defer res.Write(t)
+	for ri := range all.Runs {
+		if !ledgerReplayRun(res, &all.Runs[ri]) {
+			return
+		}
+	}
+}
+
+func ledgerReplayRun(res *vh.Result, in *lrInput) bool {
 	for bi := range in.Behaviours {
 		b := &in.Behaviours[bi]
 		km := kindMaps[(bi+int(vh.Seed()))%len(kindMaps)]
-		if err := replayLedger(res, &in, b, km); err != nil {
+		if err := replayLedger(res, in, b, km); err != nil {
 			res.Skip("behaviour %s: %v", b.ID, err)
-			return
+			return false
 		}
+		res.Count("cases_"+in.Name, 1)
 		key := make([]string, 0, len(b.Ops))
 		for _, o := range b.Ops {
 			key = append(key, o.Label)
@@ -367,6 +381,7 @@ func TestLedgerReplay(t *testing.T) {
 			res.Sample(map[string]any{"driver": "ledger-replay", "mode": in.Mode, "lazy": in.Lazy, "kinds": km.name, "calls": key})
 		}
 	}
+	return true
 }
 
 func replayLedger(res *vh.Result, in *lrInput, b *lrBehaviour, km kindMap) error {
@@ -434,6 +449,7 @@ func replayLedger(res *vh.Result, in *lrInput, b *lrBehaviour, km kindMap) error
 			return fmt.Errorf("unknown op %q", o.Op)
 		}
 		res.Count("calls", 1)
+		res.Count("calls_"+in.Name, 1)
 		after := s.project()
 		if strings.HasPrefix(got, "error:") {
 			violate("UnexpectedError", fmt.Sprintf("%s returned %s", o.Label, got))
@@ -551,7 +567,12 @@ func diffProjection(p projection, m map[string]any) string {
 }
 
 // ---- concurrent stress ------------------------------------------------------------
+type lsInputs struct {
+	Runs []lsInput `json:"runs"`
+}
+
 type lsInput struct {
+	Name     string         `json:"name"`
 	Mode     string         `json:"mode"`
 	Lazy     bool           `json:"lazy"`
 	Caps     map[string]int `json:"caps"`
@@ -567,10 +588,18 @@ type lsEvent struct {
 }
 
 func TestLedgerStress(t *testing.T) {
-	var in lsInput
-	vh.Input(t, &in)
+	var all lsInputs
+	vh.Input(t, &all)
 	res := vh.NewResult()
 	defer res.Write(t)
+	for ri := range all.Runs {
+		if !ledgerStressRun(t, res, &all.Runs[ri]) {
+			return
+		}
+	}
+}
+
+func ledgerStressRun(t *testing.T, res *vh.Result, in *lsInput) bool {
 	var out *os.File
 	if in.TraceOut != "" {
 		var err error
@@ -583,23 +612,25 @@ func TestLedgerStress(t *testing.T) {
 	master := vh.Rand()
 	for round := 0; round < in.Rounds; round++ {
 		km := kindMaps[(round+int(vh.Seed()))%len(kindMaps)]
-		lines, err := stressRound(res, &in, round, km, master.Int63())
+		lines, err := stressRound(res, in, round, km, master.Int63())
 		if err != nil {
-			res.Skip("round %d: %v", round, err)
-			return
+			res.Skip("%s round %d: %v", in.Name, round, err)
+			return false
 		}
 		if lines == nil {
-			return // violation recorded
+			return false // violation recorded
 		}
-		res.Case(fmt.Sprintf("stress:%s:%v:%d:%s", in.Mode, in.Lazy, round, km.name))
+		res.Case(fmt.Sprintf("stress:%s:%d:%s", in.Name, round, km.name))
+		res.Count("rounds_"+in.Name, 1)
 		if out != nil {
 			for _, e := range lines {
 				b, _ := json.Marshal(e)
 				out.Write(append(b, '\n'))
 			}
-			res.Count("traces", 1)
+			res.Count("traces_"+in.Name, 1)
 		}
 	}
+	return true
 }
 
 func stressRound(res *vh.Result, in *lsInput, round int, km kindMap, seed int64) ([]map[string]any, error) {
@@ -841,13 +872,13 @@ func stressRound(res *vh.Result, in *lsInput, round int, km kindMap, seed int64)
 	for _, pe := range perProc {
 		events = append(events, pe...)
 	}
-	res.Count("calls", len(events)/2)
+	res.Count("calls_"+in.Name, len(events)/2)
 	sort.Slice(events, func(i, j int) bool { return events[i].seq < events[j].seq })
 	open := 0
 	for _, e := range events {
 		if e.line["ev"] == "inv" {
 			if open > 0 {
-				res.Count("overlapping_calls", 1)
+				res.Count("overlapping_calls_"+in.Name, 1)
 			}
 			open++
 		} else {
